@@ -213,6 +213,9 @@ def main(argv):
             print("ANALYSIS-ERROR property=%s no checker for this property (%s)" % (prop, e))
             return 2
         mod.run(ctx)
+        from . import state
+
+        state.apply(ctx)  # cross-call state rules (memo aliasing, stale derived attributes) for the functions this check analysed
         ctx.ev.check_floors()
         try:
             ctx.ev.extra["branch_coverage"] = branch_summary(ctx)
